@@ -455,8 +455,8 @@ def validate(ctx, trace, prefix, chunk=1200, workers=None):
     ctx.cov.setdefault("extra_reads", 0)
     ctx.cov.setdefault("departures_judged_by_properties", 0)
     account_trace(ctx, spans, events)
-    ctx.cov["traces_validated_against_impl"] += len(spans)
-    ctx.cov["trace_events_validated"] += len(events) - len(spans)
+    ctx.add("traces_validated_against_impl", len(spans))
+    ctx.add("trace_events_validated", len(events) - len(spans))
     ctx.stage("trace-validation", scenarios=len(spans), events=len(events) - len(spans), invariants=[i for i in invs if i.startswith(prefix)], wall=round(time.time() - t0, 1))
     if drift_first is not None:
         raise vlib.Infra("specification drift: " + drift_first[1])
